@@ -196,6 +196,66 @@ def apply_mut(b, mut):
         raise RuntimeError("unknown mutation %r" % (mut,))
 
 
+def nav(obj, path):
+    """The object reached from obj by following .items[i % len] for every i of path; None if there is no such object."""
+    for i in path:
+        items = obj.__dict__.get("items")
+        if not isinstance(items, list) or not items:
+            return None
+        obj = items[i % len(items)]
+        if not isinstance(obj, metabook.MetabookObject):
+            return None
+    return obj
+
+
+def apply_edit(coll, path, act):
+    """An IN-PLACE edit of the live metabook at any depth: nothing is assigned on the Collection object unless path == [] and the
+    action is `set`.  Mirrors coq/C13/ModelEdit.v edit_at (an edit that does not apply is skipped there as well)."""
+    t = nav(coll, path)
+    if t is None:
+        return "skipped"
+    k = act[0]
+    items = t.__dict__.get("items")
+    if k == "set":              # target.field = value
+        setattr(t, act[1], unplain(act[2]))
+    elif k == "append":         # target.items.append(Class(**kw))
+        if not isinstance(items, list):
+            return "skipped"
+        items.append(CLASSES[act[1]](**{a: unplain(v) for a, v in act[2].items()}))
+    elif k == "insert":
+        if not isinstance(items, list):
+            return "skipped"
+        items.insert(act[1] % (len(items) + 1), CLASSES[act[2]](**{a: unplain(v) for a, v in act[3].items()}))
+    elif k == "pop":
+        if not isinstance(items, list) or not items:
+            return "skipped"
+        items.pop(act[1] % len(items))
+    elif k == "reverse":
+        if not isinstance(items, list):
+            return "skipped"
+        items.reverse()
+    elif k == "listappend":     # target.field.append(value) for a list-valued attribute (wikis, licenses, custom lists)
+        x = t.__dict__.get(act[1])
+        if not isinstance(x, list):
+            return "skipped"
+        x.append(unplain(act[2]))
+    elif k == "inner":          # target.field[i][key] = value (plain dict) / setattr(target.field[i], key, value) (object)
+        x = t.__dict__.get(act[1])
+        if isinstance(x, list):
+            if not x:
+                return "skipped"
+            x = x[act[2] % len(x)]
+        if isinstance(x, metabook.MetabookObject):
+            setattr(x, act[3], unplain(act[4]))
+        elif isinstance(x, dict):
+            x[act[3]] = unplain(act[4])
+        else:
+            return "skipped"
+    else:
+        raise RuntimeError("unknown edit %r" % (act,))
+    return "ok"
+
+
 def shared_defaults_report(others):
     """C13_no_shared_defaults: class-level mutable defaults and bystander objects are untouched."""
     bad = []
@@ -343,6 +403,18 @@ def run_case(case):
                 if pb == pa:
                     res["second_before"] = "=first"
                 return res
+            out.append(guarded(f))
+        elif k == "edit":
+            out.append(guarded(lambda: apply_edit(coll, op[1], op[2])))
+        elif k == "probe":
+            # the identifiers of the LIVE object, asked for in the middle of its life: they must be those of its current content
+            def f():
+                t = coll.dumps()
+                fresh = myjson.loads(t)
+                return {"checksum": metabook.calc_checksum(coll), "text": t,
+                        "fresh_checksum": metabook.calc_checksum(fresh) if isinstance(fresh, metabook.Collection) else None,
+                        "id": guarded(lambda: cid(dict(op[1], metabook=t))),
+                        "checksum_again": metabook.calc_checksum(coll)}
             out.append(guarded(f))
         elif k == "shared":
             out.append({"ok": shared_defaults_report(others)})
